@@ -788,7 +788,13 @@ func (dru *dirRepoUpload) Close() error {
 		}
 	}
 	blobName := filepath.Join(tgtDir, dru.d.Digest().Encoded())
-	err = errors.Join(os.Rename(dru.filename, blobName), dru.dr.uploads.Delete(dru.sessionID))
+	err = os.Rename(dru.filename, blobName)
+	if err == nil {
+		// the grace period of the blob starts when the upload completes, not with the last data written
+		now := time.Now()
+		_ = os.Chtimes(blobName, now, now)
+	}
+	err = errors.Join(err, dru.dr.uploads.Delete(dru.sessionID))
 	dru.dr.log.Debug("blob created", "repo", dru.dr.name, "digest", dru.d.Digest().String(), "err", err)
 	return err
 }
